@@ -37,7 +37,7 @@ RULE = ("generated signatures (positional-only, positional-or-keyword, *args, ke
         "decorated call such as a logged main() that sets up logging), then 0-3 more calls. Everything logged before that first "
         "add_destinations reaches its destinations afterwards (eliot buffers start-up messages), so every call - before, across or "
         "after it - must show exactly one action with the start fields and result / exception demanded above, what its body logged "
-        "must be children of that action, and results / exception objects must be those of the undecorated function")
+        "must be children of that action, and results / exception objects must be those of the undecorated function" " Body plans also include methods that return the object they were called on (the end message's result is that object) and bodies that record success fields of their own on the action of their call, one of them named result (the logged result is the return value; with include_result=False the body's own field stays).")
 ASSUMPTIONS = ["argument values are JSON-native so that tape copies compare by equality"]
 BATCH = 250
 ENABLE_STARTUP = True  # part 'startup' (decorated calls before the first add_destinations of a process)
@@ -197,6 +197,8 @@ def same(a, b):
 class Channel(object):
     """Side channel between the generated function body and the harness."""
 
+    is_decorated = False
+
     def __init__(self):
         self.reset()
 
@@ -211,6 +213,7 @@ class Channel(object):
         self.exc = None
         self.plan = "return"
         self.gen = None
+        self.own_result = False
 
     def hook(self, loc):
         self.calls += 1
@@ -241,6 +244,15 @@ class Channel(object):
                 return "dict{%s}" % ", ".join("%r: %s" % (k, show(x)) for k, x in v.items())
             return repr(v)
         self.result = ("R", sorted((k, show(v)) for k, v in loc.items() if k not in ("self", "cls")))
+        if self.plan == "return_self" and type(loc.get("self")).__name__ == "Klass":
+            self.result = loc["self"]  # a fluent interface: the method returns the object it was called on
+        if self.plan == "return_own_result" and self.is_decorated:
+            # the function records a success field of its own on the action of its call - also one named result
+            import eliot as _eliot
+            cur = _eliot.current_action()
+            if cur is not None:
+                cur.add_success_fields(result="summary recorded by the body", rows=3)
+                self.own_result = True
         return self.result
 
 
@@ -309,6 +321,7 @@ def one(seed, i, res, tape):
     if optkind in ("no_result", "both"):
         opts["include_result"] = False
     chan_u, chan_d = Channel(), Channel()
+    chan_d.is_decorated = True
     problems = []  # (clause, key, text, posonly_kw)
     posonly_names = set(n for n, _ in sig["posonly"])
     pk = [False]
@@ -371,7 +384,7 @@ def one(seed, i, res, tape):
         args, kwargs = gen_args(rng, sig, valid)
         if flavour == "stacked" and rng.random() < 0.5 and "retries" not in all_names(sig):
             kwargs["retries"] = rng.randint(0, 9)
-        plan = rng.choice(["return", "return", "raise", "raise_base", "return_leaky"])
+        plan = rng.choice(["return", "return", "raise", "raise_base", "return_leaky", "return_self", "return_own_result"])
         chan_u.reset()
         chan_d.reset()
         chan_u.plan = chan_d.plan = plan
@@ -448,7 +461,9 @@ def one(seed, i, res, tape):
         if ou[0] == "ret":
             if od[1] is not chan_d.result:
                 problems.append(("result", None, "decorated call returned %r, not the body's result object: %s" % (od[1], desc)))
-            if od[1] != ou[1]:
+            if od[1] != ou[1] and not (plan == "return_self" and type(od[1]).__name__ == type(ou[1]).__name__ and not isinstance(od[1], tuple)):
+                # (a method that returns the object it was called on returns a different instance on each side: identity with the
+                # body's result object, checked above, is what counts there)
                 problems.append(("result", None, "decorated result %r != undecorated %r: %s" % (od[1], ou[1], desc)))
         else:
             if od[1] is not chan_d.exc:
@@ -500,8 +515,24 @@ def one(seed, i, res, tape):
             if e.get("action_status") != "succeeded":
                 problems.append(("actions", None, "action ended %r for a returning call: %s" % (e.get("action_status"), desc)))
             if opts.get("include_result", True):
-                if "result" not in e or e["result"] != od[1] and e["result"] != list(od[1]) and tuple(e["result"]) != od[1]:
+                def same_result(a, b):
+                    if a is b or a == b:
+                        return True
+                    try:
+                        return a == list(b) or tuple(a) == b
+                    except TypeError:
+                        return False
+                if "result" not in e or not same_result(e["result"], od[1]):
                     problems.append(("resultfield", None, "end message result %r, returned %r: %s" % (e.get("result"), od[1], desc)))
+                if plan == "return_self":
+                    res["counters"]["methods_returning_the_object_they_were_called_on"] = res["counters"].get("methods_returning_the_object_they_were_called_on", 0) + int(od[1] is not None and not isinstance(od[1], tuple))
+                if chan_d.own_result:
+                    res["counters"]["bodies_recording_their_own_result_field"] = res["counters"].get("bodies_recording_their_own_result_field", 0) + 1
+                    if e.get("rows") != 3:
+                        problems.append(("resultfield", None, "a success field the body recorded on its call's action (rows=3) is missing from the end message: %s" % desc))
+            elif chan_d.own_result:
+                if e.get("result") != "summary recorded by the body":
+                    problems.append(("resultfield", None, "include_result=False and the body recorded its own field named result: end message has %r: %s" % (e.get("result"), desc)))
             elif "result" in e:
                 problems.append(("resultfield", None, "result logged although include_result=False: %s" % desc))
         else:
@@ -1303,6 +1334,8 @@ def run_case(spec):
 def finalize(agg, tier):
     if agg["counters"].get("calls_compared", 0) < 2000:
         return "fewer than 2000 calls compared"
+    if agg["counters"].get("methods_returning_the_object_they_were_called_on", 0) < 100 or agg["counters"].get("bodies_recording_their_own_result_field", 0) < 100:
+        return "fewer than 100 methods returned the object they were called on / bodies recorded a result field of their own"
     for k in ("layers_calls_through_log_call_on_log_call", "layers_calls_through_log_call_on_plain_wrapper_of_log_call",
               "layers_calls_after_default_logger_replaced"):
         if not agg["counters"].get(k, 0):
